@@ -309,12 +309,26 @@ func genC06Engine(r *rng, n int, w *bufio.Writer) {
 			rpool = append(rpool, t)
 		}
 	}
+	// referrer-level exceptions whose pattern (hence lookup shortcut) covers the referrer's PATH, as written in
+	// lower and in mixed case; the referrer URL itself comes in mixed case too (host and path): the engine must
+	// find the exception through the lower-cased referrer URL
+	spoolPath := c06Pool("||site.com/landing", false)
+	spoolPathMixed := c06Pool("||Site.com/Landing", false)
+	reqURL, reqSrc := "http://e.org/ad.js", "http://site.com/page"
 	req := func() *rules.Request {
-		return rules.NewRequest("http://e.org/ad.js", "http://site.com/page", rules.TypeScript)
+		return rules.NewRequest(reqURL, reqSrc, rules.TypeScript)
 	}
 	for i := 0; i < n; i++ {
+		reqURL, reqSrc = "http://e.org/ad.js", "http://site.com/page"
 		if r.chance(1, 2) {
-			ts := append(c06Multiset(r, rpool, 6), c06Multiset(r, spool, 3)...)
+			sp := spool
+			if r.chance(1, 2) {
+				reqURL = pick(r, []string{"http://e.org/ad.js", "http://E.org/Ad.js", "HTTP://E.ORG/AD.JS", "http://e.Org/ad.js"})
+				reqSrc = pick(r, []string{"http://site.com/Landing/page.html", "http://SITE.com/page", "https://Site.Com/Landing/Page.html",
+					"http://site.com/landing/page.html", "http://sitE.com/LANDING", "HTTP://SITE.COM/Page", "http://site.Com/page"})
+				sp = pick(r, [][]string{spool, spoolPath, spoolPathMixed})
+			}
+			ts := append(c06Multiset(r, rpool, 6), c06Multiset(r, sp, 3)...)
 			perms := 1 + r.n(3)
 			var classes []string
 			for p := 0; p < perms; p++ {
@@ -342,10 +356,10 @@ func genC06Engine(r *rng, n int, w *bufio.Writer) {
 					}
 				}
 				if cls != "PANIC" {
-					fmt.Fprintf(w, "c06.result %s %s = %s ## Engine.MatchRequest over lists [%s]: rules [%s] source [%s]\n", c06Enc(rs), c06Enc(src), cls,
-						strings.Join(ts, "  ;  "), c06Texts(rs), c06Texts(src))
+					fmt.Fprintf(w, "c06.result %s %s = %s ## Engine.MatchRequest(url=%q, referrer=%q, script) over lists [%s]: rules [%s] source [%s]\n", c06Enc(rs), c06Enc(src), cls,
+						reqURL, reqSrc, strings.Join(ts, "  ;  "), c06Texts(rs), c06Texts(src))
 				} else {
-					fmt.Fprintf(w, "assert c06.enginepanic %s = F ## Engine.MatchRequest panicked over [%s]\n", wstrs(ts), strings.Join(ts, "  ;  "))
+					fmt.Fprintf(w, "assert c06.enginepanic %s %s %s = F ## Engine.MatchRequest(url=%q, referrer=%q) panicked over [%s]\n", wstrs(ts), wb(reqURL), wb(reqSrc), reqURL, reqSrc, strings.Join(ts, "  ;  "))
 				}
 				_ = mapped
 				// NetworkEngine.Match: the verdict over the matching rules alone (no referrer rules)
@@ -357,8 +371,8 @@ func genC06Engine(r *rng, n int, w *bufio.Writer) {
 
 					return c08Class(nr)
 				})
-				fmt.Fprintf(w, "c06.result %s () = %s ## NetworkEngine.Match over lists [%s]: rules [%s]\n", c06Enc(rs), ncls,
-					strings.Join(ts, "  ;  "), c06Texts(rs))
+				fmt.Fprintf(w, "c06.result %s () = %s ## NetworkEngine.Match(url=%q, referrer=%q, script) over lists [%s]: rules [%s]\n", c06Enc(rs), ncls,
+					reqURL, reqSrc, strings.Join(ts, "  ;  "), c06Texts(rs))
 				classes = append(classes, cls)
 				shuffle(r, ts)
 			}
@@ -368,7 +382,7 @@ func genC06Engine(r *rng, n int, w *bufio.Writer) {
 					ok = false
 				}
 			}
-			fmt.Fprintf(w, "assert c06.engineperm %s = %s ## Engine.MatchRequest classes of %d permutations/splits %v: [%s]\n", wstrs(ts), wbool(ok), perms, classes, strings.Join(ts, "  ;  "))
+			fmt.Fprintf(w, "assert c06.engineperm %s %s %s = %s ## Engine.MatchRequest(url=%q, referrer=%q) classes of %d permutations/splits %v: [%s]\n", wstrs(ts), wb(reqURL), wb(reqSrc), wbool(ok), reqURL, reqSrc, perms, classes, strings.Join(ts, "  ;  "))
 		} else {
 			ts := c06Multiset(r, dpool, 6)
 			perms := 1 + r.n(3)
